@@ -1,8 +1,8 @@
 """C02 - No history of snapshot/delete/clean ever damages a remaining snapshot."""
-from specs import c18, gc, snapbody, snapshot
+from specs import fsutil, c18, gc, snapbody, snapshot, local
 
 LEVEL = 'proof'
-UNITS = [gc.delete_unit('C02'), gc.clean_unit('C02'), snapbody.download_snapshot_unit('C02'),
+UNITS = [fsutil.scandir_unit('C02')] + local.small_units('C02') + [gc.delete_unit('C02'), gc.clean_unit('C02'), snapbody.download_snapshot_unit('C02'),
          snapshot.worker_unit('C02'), snapshot.run_unit('C02')] + c18.units('C02')[:1] + snapbody.load_units('C02') + [snapshot.producer_unit('C02'), snapshot.chunk_done_unit('C02'), snapshot.tail_unit('C02')]
 BOUNDED = [{'name': 'C02.history', 'script': 'bounded/hist.py', 'timeout': 1200, 'args': {'prop': 'C02'}, 'bound': 'random histories of snapshot/delete/clean by owner, shared-key and independent-key users (and one unencrypted user): <= 10 operations, <= 4 paths per snapshot from 6 overlapping contents, chunks 8..64, 5 (thorough: 40) seeded histories per mode; every remaining snapshot is restored by its owner after each destructive step; the commands use a snapshot cache per user / shared by all users / none (by history), the oracle reads the backend only'}]
 TRUSTED = [
